@@ -282,7 +282,12 @@ pub async fn wait_until(mut cond: impl FnMut() -> bool, secs: u64) -> bool {
         if cond() {
             return true;
         }
-        if start.elapsed() > Duration::from_secs(secs) {
+        let limit = match TIMEOUTS.load(Ordering::Relaxed) {
+            0 => Duration::from_secs(secs),
+            1..=2 => Duration::from_secs(secs.min(2)),
+            _ => Duration::from_millis(100),
+        };
+        if start.elapsed() > limit {
             TIMEOUTS.fetch_add(1, Ordering::Relaxed);
             return false;
         }
@@ -322,7 +327,15 @@ pub async fn settle_with(mut busy: impl FnMut() -> bool) -> bool {
                 eprintln!("tcpq: slow settle {:?}; {s:?}", start.elapsed());
             }
         }
-        if start.elapsed() > Duration::from_secs(20) {
+        // generous while the run is healthy; once deadlines have been missed the run is anomalous anyway
+        // (a dead listener, a reader that stopped reading): go on quickly so that the ops that show it get
+        // recorded and judged instead of the harness crawling
+        let limit = match TIMEOUTS.load(Ordering::Relaxed) {
+            0 => Duration::from_secs(20),
+            1..=2 => Duration::from_secs(2),
+            _ => Duration::from_millis(100),
+        };
+        if start.elapsed() > limit {
             TIMEOUTS.fetch_add(1, Ordering::Relaxed);
             if std::env::var("TCPQ_DEBUG").is_ok() {
                 for s in all_socks() {
